@@ -176,6 +176,18 @@ class Slot:
                     fh.close()
                     continue
                 self.fh, self.path = fh, p
+                # disk hygiene: every harness leaves its goto binaries in the target dir; drop the
+                # crate's build products every 30 uses (dependencies stay built)
+                try:
+                    cnt = p + ".uses"
+                    n = int(open(cnt).read()) + 1 if os.path.exists(cnt) else 1
+                    if n >= 30:
+                        n = 0
+                        for sub in ("kani/x86_64-unknown-linux-gnu/debug/build/rs-store", "kani/x86_64-unknown-linux-gnu/debug/incremental"):
+                            shutil.rmtree(os.path.join(p, sub), ignore_errors=True)
+                    open(cnt, "w").write(str(n))
+                except Exception:
+                    pass
                 return p
             time.sleep(0.5)
 
